@@ -71,7 +71,28 @@ func history(c *Case) {
 		fatal("no history")
 	}
 	hookInstall()
-	ws := startWorkers(h.Threads)
+	if h.MainThreadIsWorker0 && h.Threads > 1 {
+		// the main goroutine (locked to the main thread from init) serves as worker 0; the history is driven from another goroutine
+		w0 := &worker{tid: syscall.Gettid(), ch: make(chan workerCmd)}
+		rest := startWorkers(h.Threads - 1)
+		finished := make(chan struct{})
+		go func() {
+			historyOn(h, append([]*worker{w0}, rest...))
+			close(finished)
+		}()
+		for {
+			select {
+			case c := <-w0.ch:
+				c.reply <- c.f()
+			case <-finished:
+				return
+			}
+		}
+	}
+	historyOn(h, startWorkers(h.Threads))
+}
+
+func historyOn(h *HistoryCase, ws []*worker) {
 	tids := make([]int, len(ws))
 	for i, w := range ws {
 		tids[i] = w.tid
